@@ -828,7 +828,7 @@ def run_flow(ctx):
     mcsel = [tab[i] for i in ((1, 3, 7, 5) if ctx.quick else (1, 3, 7, 5, 8))]
     with open(wd + '/FastFlowMC.tla', 'w') as f:
         f.write(flow_mc_module(mcsel))
-    bounds = dict(MaxOps=4, MaxTime=6, MaxResp=2) if ctx.quick else dict(MaxOps=5, MaxTime=9, MaxResp=3)
+    bounds = dict(MaxOps=4, MaxTime=6, MaxResp=2) if ctx.quick else dict(MaxOps=4, MaxTime=8, MaxResp=2)
     F = lambda b, dev, props, cm='MCCmds': FLOW_CFG % ('Spec', cm, 'MCHeaders', b['MaxOps'], b['MaxTime'], b['MaxResp'], dev, props)
     with open(wd + '/MC.cfg', 'w') as f:
         f.write(F(bounds, '{}', FLOW_PROPS))
